@@ -106,6 +106,13 @@ def gen_cases(tier, seed):
                 if a in f:
                     rts = [hb, g.route(a, ("ret", {"status": "Accepted"}))]
         cases.append(("1.6", rts, ['[2,"h0","Heartbeat",{}]', f, '[2,"h1","Heartbeat",{}]'], "closed", False))
+    # a route that skips validation gets whatever the peer sends as payload: arrays, strings, numbers, null -- the handler's
+    # failure to take it is a CALLERROR, never the end of the loop
+    dts = g.route("DataTransfer", ("ret", {"status": "Accepted"}), skip=True, after=("ret",))
+    for p_txt in ('["x","y"]', '"p"', "5", "null", "true", "[]", '[{"a":1}]', "1e999"):
+        cases.append(("1.6", [dts, g.route("Heartbeat", ("ret", {"current_time": "t"}))],
+                      ['[2,"h0","Heartbeat",{}]', '[2,"np","DataTransfer",%s]' % p_txt, '[2,"h1","Heartbeat",{}]'], "closed", False))
+        cases.append(("2.0.1", [dts], ['[2,"np","DataTransfer",%s]' % p_txt, '[2,"ok","DataTransfer",{"vendorId":"v"}]'], "oserror", False))
     # payloads nested deeper than the recursive key conversion can follow but within what json.loads accepts: a
     # schema-valid CALL (free-form customData), a CALL on a validation-skipping route, and a CALL that validation
     # rejects (its CALLERROR quotes the payload); none of them may end the loop.  Not given to the model (the
